@@ -118,6 +118,10 @@ func c04Doc(t *core.Tape, w *world.World, version int) *world.TcbInfoDoc {
 				if iv < 0 {
 					iv = 0
 				}
+				if t.Chance(1, 6) {
+					// the JSON number is 32 bits wide, the module's SVN (TEE_TCB_SVN[0]) one byte: never reached
+					iv = []int{256, 256 + int(in.Tee[0]), 256 + int(in.Tee[0])/2, 512, 65536 + int(in.Tee[0]), 0xffffff00}[t.Draw(6)]
+				}
 				st := world.Statuses[t.Draw(len(world.Statuses))]
 				if t.Bool() {
 					st = "UpToDate"
@@ -138,6 +142,9 @@ func c04Doc(t *core.Tape, w *world.World, version int) *world.TcbInfoDoc {
 			mi := mk(ver)
 			for i := range mi.Levels {
 				mi.Levels[i].Isvsvn = uint32(in.Tee[0]) + 1 + uint32(i)
+				if t.Bool() {
+					mi.Levels[i].Isvsvn = uint32(256*(1+i)) + uint32(in.Tee[0])/2
+				}
 			}
 			d.Modules = []world.ModuleIdentity{mi}
 		default:
